@@ -8,10 +8,6 @@ namespace H2V.Lemmas.ConnNoPanicP
 open H2V H2V.Model H2V.Model.Conn H2V.Lemmas.ConnCountsP
 attribute [local irreducible] wrapSubU32 wrapSubUsize
 
-theorem refInc_lt (s : Streams) (k : Nat) : LT [k] s (s.refInc k) := by
-  unfold Streams.refInc; lt_auto
-theorem cloneStreamRef_lt (s : Streams) (k : Nat) : LT [k] s (s.cloneStreamRef k) := by
-  unfold Streams.cloneStreamRef; lt_auto
 theorem maybeCancel_lt (s : Streams) (k : Nat) : LT [k] s (s.maybeCancel k) := by
   unfold Streams.maybeCancel; lt_auto
 theorem refReserveCapacity_lt (s : Streams) (k c : Nat) : LT [k] s (s.refReserveCapacity k c) := by
@@ -58,18 +54,21 @@ theorem refPollData_lt (s : Streams) (k : Nat) (t : String) : LT [k] s (s.refPol
 /-- the light step without the frame of the local-error-reset counter -/
 structure LTw (ks : List Nat) (s s' : Streams) : Prop where
   keys : SameKeys s s'
+  ids : s'.store.ids = s.store.ids
+  sid : SPr (·.id) s s'
+  ref : SPr (·.refCount) s s'
   ok : LiveAll s ks → NPQ s → NPQ s'
 
-theorem LT.w {ks : List Nat} {s s' : Streams} (h : LT ks s s') : LTw ks s s' := ⟨h.keys, h.ok⟩
-theorem LTw.refl (ks : List Nat) (s : Streams) : LTw ks s s := ⟨SameKeys.refl _, fun _ h => h⟩
+theorem LT.w {ks : List Nat} {s s' : Streams} (h : LT ks s s') : LTw ks s s' := ⟨h.keys, h.ids, h.sid, h.ref, h.ok⟩
+theorem LTw.refl (ks : List Nat) (s : Streams) : LTw ks s s := ⟨SameKeys.refl _, rfl, SPr.refl _ _, SPr.refl _ _, fun _ h => h⟩
 theorem LTw.trans {ks ks' : List Nat} {a b c : Streams} (h1 : LTw ks a b) (h2 : LTw ks' b c) (hs : ∀ k ∈ ks', k ∈ ks) :
     LTw ks a c :=
-  ⟨h1.keys.trans h2.keys, fun hl hq => h2.ok (fun k hk => h1.keys.live.mpr (hl k (hs k hk))) (h1.ok hl hq)⟩
+  ⟨h1.keys.trans h2.keys, h2.ids.trans h1.ids, h1.sid.trans h2.sid, h1.ref.trans h2.ref, fun hl hq => h2.ok (fun k hk => h1.keys.live.mpr (hl k (hs k hk))) (h1.ok hl hq)⟩
 theorem LTw.of_fst_eq {ks : List Nat} {s : Streams} {α : Type} {p : Streams × α} {a : Streams} {x : α}
     (h : p = (a, x)) (e : LTw ks s p.1) : LTw ks s a := by subst h; exact e
 
 theorem setCounts_ltw (s : Streams) (c : Counts) : LTw ks s { s with counts := c } :=
-  ⟨.of_store_eq rfl, fun _ hq => ⟨hq.np, (SameKeys.of_store_eq (s := s) (s' := { s with counts := c }) rfl).keysOK hq.keys,
+  ⟨.of_store_eq rfl, rfl, .of_store rfl, .of_store rfl, fun _ hq => ⟨hq.np, (SameKeys.of_store_eq (s := s) (s' := { s with counts := c }) rfl).keysOK hq.keys,
     (QF.of_store_q (s := s) (s' := { s with counts := c }) rfl rfl).qok hq.qc, hq.av⟩⟩
 
 /-- `Actions::reset_on_recv_stream_err`: `inc_num_local_error_resets` is guarded by its `can_inc` test -/
